@@ -222,7 +222,7 @@ Plan gen_plan(int prop, uint64_t runseed) {
         p.ops.push_back(o);
     };
     if (prop == P_C05) { for (int i = 0; i < 3; i++) push_kind(B_NEW_PTRLEN); }
-    else if (prop == P_C16) { push_kind(SS_NEW); push_kind(SS_NEW); push_kind(S_CONSTRUCT); }
+    else if (prop == P_C16) { push_kind(SS_NEW); push_kind(SS_NEW); push_kind(S_CONSTRUCT); p.ops.back().d = 1; }
     else { push_kind(S_CONSTRUCT); push_kind(S_CONSTRUCT); push_kind(S_FILL); push_kind(B_NEW_PTRLEN); push_kind(SS_NEW); }
     while (p.ops.size() < len + 3) {
         int x = (int)r.below((uint32_t)tot), f = 0;
@@ -231,6 +231,7 @@ Plan gen_plan(int prop, uint64_t runseed) {
         push_kind(ks[r.below((uint32_t)ks.size())]);
         Op &o = p.ops.back();
         if (prop == P_C16 && (o.kind == S_FROM || o.kind == S_FROM_NUM || o.kind == S_LITERAL || o.kind == S_NEW_DEFAULT)) o.kind = S_FILL, fill_operands(r, o, bias, false);
+        if (prop == P_C16 && o.kind == S_CONSTRUCT) o.d = 1;      // C16 histories only need plain (ptr,len) strings as arguments of stream << string
         if (corrupt_rate && corruptible(o.kind) && r.below(corrupt_rate) == 0) { o.fault |= F_CORRUPT; o.fc = r.below(1 << 24); }
         if (alloc_rate && alloc_faultable(o.kind) && r.below(alloc_rate) == 0) {
             o.fault |= F_ALLOC;
